@@ -265,7 +265,8 @@ def write_evidence(pid, tier, seed, state, theorems, outcome, wall, violations, 
         'distribution': outcome.distribution,
         'exhaustive': bool(outcome.exhaustive),
         'lean': {'build_ok': state.build_ok, 'build_s': round(state.build_s, 2), 'audit_s': round(state.audit_s, 2),
-                 'axioms': {t: state.axioms.get(t) for t in theorems}},
+                 'axioms': {t: state.axioms.get(t) for t in theorems},
+                 'leanchecker': getattr(state, 'leanchecker', None)},
         'repo_head': repo_head(),
         'generated_lean_sha': state.generated_sha,
     }
